@@ -50,6 +50,12 @@ def c02(tier, seed, work):
                store_consts(Buckets={"bkt1"}, KeySetName="dirkey", Bodies={"x1"}, CfgName="single",
                             OpNames={"PutObject", "GetObject", "HeadObject", "DeleteObject", "DeleteMulti", "CopyObject", "ListObjects"}),
                ["singlemem", "singleos"], **st)
+    # bucket names that are prefixes of each other (bkt1, bkt12): deleting one must leave the other alone
+    tour_stage(rep, work, "prefix-named-buckets", "MC_Store",
+               store_consts(Buckets={"bkt1", "bkt12"}, KeySetName="nest2", Bodies={"x1"},
+                            OpNames={"CreateBucket", "DeleteBucket", "ForceDelete", "PutObject", "GetObject", "DeleteObject",
+                                     "ListObjects", "ListBuckets"}),
+               ALL4, **st)
     # beyond the listed operations: forced bucket deletion (x-minio-force-delete) and conditional reads (If-None-Match)
     tour_stage(rep, work, "force-delete-cond-get", "MC_Store",
                store_consts(Buckets={"bkt1"}, Bodies={"x1", "x2"},
@@ -605,6 +611,20 @@ def c10(tier, seed, work):
     tour_stage(rep, work, "keys-single", "MC_Store",
                store_consts(KeySetName="hostile2", Bodies={"x1"}, CfgName="single", OpNames=ops - {"CreateBucket"}, Ghosts=False),
                ["singlemem", "singleos"], small=True, **st)
+    # the names the fs backends give their own scratch files (upload temp file, mtime probe) are legal keys
+    ops4 = {"CreateBucket", "PutObject", "GetObject", "DeleteObject", "ListObjects", "DeleteBucket"}
+    tour_stage(rep, work, "keys-scratch-file-names", "MC_Store",
+               store_consts(Buckets={"bkt1"}, KeySetName="hostile4", Bodies={"x1", "x2"} if tier == "thorough" else {"x1"}, OpNames=ops4),
+               ALL4, small=True, **st)
+    tour_stage(rep, work, "keys-scratch-file-names-single", "MC_Store",
+               store_consts(Buckets={"bkt1"}, KeySetName="hostile4", Bodies={"x1", "x2"} if tier == "thorough" else {"x1"}, CfgName="single",
+                            OpNames=ops4 - {"CreateBucket", "DeleteBucket"}),
+               ["singlemem", "singleos"], small=True, **st)
+    # keys that are the directory of a stored key: read and deleted like any missing key, the stored keys untouched
+    tour_stage(rep, work, "directory-keys", "MC_Store",
+               store_consts(Buckets={"bkt1"}, KeySetName="dirkey", Bodies={"x1"},
+                            OpNames={"CreateBucket", "PutObject", "GetObject", "HeadObject", "DeleteObject", "DeleteMulti", "ListObjects"}),
+               ["multimem", "multios"], small=True, **st)
     # keys with '.', '..' and empty segments are distinct byte strings on the key-value backends
     tour_stage(rep, work, "keys-dots-kv", "MC_Store",
                store_consts(Buckets={"bkt1"}, KeySetName="dots", Bodies={"x1"}, OpNames=ops - {"CopyObject", "DeleteMulti"}, Ghosts=False),
